@@ -277,6 +277,7 @@ class Validator:
         # names derived from the root only / relpath(path, root) results
         self.rootvars = {self.Rp}
         self.relvars = set()
+        self.pathvars = set()  # locals computed from the path only (``candidate = absolute_path + os.path.sep``)
         changed = True
         while changed:
             changed = False
@@ -289,8 +290,13 @@ class Validator:
                     if d.path not in self.relvars:
                         self.relvars.add(d.path)
                         changed = True
-                elif (names & self.rootvars or (d.kind == "aug" and d.path in self.rootvars)) and self.X not in names and not (names & self.relvars) and d.path != self.X and d.path not in self.rootvars:
+                elif (names & self.rootvars or (d.kind == "aug" and d.path in self.rootvars)) and self.X not in names and not (names & self.relvars) and not (names & self.pathvars) and d.path != self.X and d.path not in self.rootvars:
                     self.rootvars.add(d.path)
+                    changed = True
+                elif d.kind == "assign" and (self.X in names or names & self.pathvars) and not (names & self.rootvars) and not (names & self.relvars) and d.path != self.X and d.path not in self.pathvars \
+                        and not isinstance(v, (ast.Compare, ast.BoolOp)) and not (isinstance(v, ast.Call) and isinstance(v.func, ast.Attribute) and v.func.attr in ("startswith", "endswith")) \
+                        and not any(is_fs_prim(x) for x in ast.walk(v)):
+                    self.pathvars.add(d.path)
                     changed = True
 
     def sep(self, e, node):
@@ -334,8 +340,29 @@ class Validator:
                     return d.value, d.node
         return e, n
 
+    def path_alias_free(self, e, at):
+        """Locals that merely hold an expression of the path (unchanged since) replaced by that expression."""
+        import copy
+
+        rd, X = self.rd, self.X
+
+        class T(ast.NodeTransformer):
+            def visit_Name(self_, node):
+                if node.id in self.pathvars and isinstance(node.ctx, ast.Load):
+                    d = rd.unique(at, node.id)
+                    if d is not None and d.kind == "assign" and d.value is not None:
+                        involved = {x.id for x in ast.walk(d.value) if isinstance(x, ast.Name)}
+                        if all(rd.IN.get(d.node.id, {}).get(v_) == rd.IN.get(at.id, {}).get(v_) for v_ in involved):
+                            return T().visit(copy.deepcopy(d.value))
+                    raise AnalysisError("validate_absolute_path: cannot resolve the path-derived local %s" % node.id)
+                return node
+
+        return T().visit(copy.deepcopy(e))
+
     def classify(self, n):
         e, at = self.resolved_test(n)
+        if {x.id for x in ast.walk(e) if isinstance(x, ast.Name)} & self.pathvars:
+            e = self.path_alias_free(e, at)
         names = {x.id for x in ast.walk(e) if isinstance(x, ast.Name)}
         X = self.X
         rel = names & self.relvars
@@ -385,7 +412,9 @@ class Validator:
             if lossy(v) or lossy(arg):
                 return ("prefix-lossy", q.unparse(e))
             lhs = None
-            if isinstance(v, ast.Name) and v.id == X:
+            if isinstance(v, ast.Call) and q.dotted(v.func) == "os.path.dirname" and len(v.args) == 1 and isinstance(v.args[0], ast.Name) and v.args[0].id == X:
+                lhs = False  # the containing directory of the path: a prefix test on it needs the separator-terminated root just the same
+            elif isinstance(v, ast.Name) and v.id == X:
                 lhs = False
             elif isinstance(v, ast.BinOp) and isinstance(v.op, ast.Add) and isinstance(v.left, ast.Name) and v.left.id == X and self.sep(v.right, at):
                 lhs = True
@@ -396,6 +425,10 @@ class Validator:
             if lhs is not None:
                 return ("prefix-derived", q.unparse(arg))
             raise AnalysisError("validate_absolute_path: prefix test on an unrecognised string: %s" % q.unparse(e))
+        if isinstance(e, ast.Compare) and len(e.ops) == 1 and isinstance(e.ops[0], (ast.Eq, ast.NotEq)):
+            for a, b in ((e.left, e.comparators[0]), (e.comparators[0], e.left)):
+                if isinstance(a, ast.Name) and a.id == X and isinstance(b, ast.Name) and b.id in self.rootvars:
+                    return ("eq-root", b.id, isinstance(e.ops[0], ast.Eq))  # the path is the root directory itself
         if isinstance(e, ast.Compare) and len(e.ops) == 1 and isinstance(e.ops[0], ast.Eq):
             for a, b in ((e.left, e.comparators[0]), (e.comparators[0], e.left)):
                 if isinstance(a, ast.Call) and q.dotted(a.func) in ("os.path.commonprefix", "os.path.commonpath") and isinstance(b, ast.Name) and b.id in self.rootvars and len(a.args) == 1 \
@@ -509,6 +542,8 @@ def check_validator(ck, fi):
                 contained = True
             elif k[0] == "common" and kind == "true":
                 contained = True
+            elif k[0] == "eq-root" and (kind == "true") == k[2]:
+                contained = True
             elif k[0] == "endsep" and (kind == "true") == k[2]:
                 seps = seps | {k[1]}
             elif k[0] == "rel-prefix" and kind == "false":
@@ -593,7 +628,11 @@ def check_validator(ck, fi):
     # a path is returned only for a regular file (a directory or a missing file must end in 403/404, not in a 500 from open/stat)
     from ..x_secflow import edge_dominates
 
-    ftests = [t for t in cfg.stmt_nodes(lambda t: t.kind == "test") if isinstance(t.ast, ast.Call) and q.dotted(t.ast.func) == "os.path.isfile" and len(t.ast.args) == 1 and isinstance(t.ast.args[0], ast.Name) and t.ast.args[0].id == X]
+    def is_isfile_test(t):
+        e_, _at = V.resolved_test(t)  # the test itself or the named boolean holding it (operands unchanged since)
+        return isinstance(e_, ast.Call) and q.dotted(e_.func) == "os.path.isfile" and len(e_.args) == 1 and isinstance(e_.args[0], ast.Name) and e_.args[0].id == X
+
+    ftests = [t for t in cfg.stmt_nodes(lambda t: t.kind == "test") if is_isfile_test(t)]
     dom = cfg.dominators()
     for n in cfg.stmt_nodes(lambda n: n.kind == "stmt" and isinstance(n.ast, ast.Return) and n.ast.value is not None and not (isinstance(n.ast.value, ast.Constant) and n.ast.value.value is None)):
         back = _reach_to(cfg, n.id)
@@ -857,6 +896,7 @@ MUTANTS = [
     ("get: validation skipped for HEAD requests", _in("get", replace_expr(lambda n: isinstance(n, ast.Call) and q.call_attr(n) == "validate_absolute_path", lambda n: ast.IfExp(test=ast.Name(id="include_body", ctx=ast.Load()), body=n, orelse=ast.Name(id="absolute_path", ctx=ast.Load())))), "C26.get-validated"),
     ("seeded C26-adv3: prefix test on lower-cased strings", _in("validate_absolute_path", replace_expr(lambda n: isinstance(n, ast.Call) and q.call_attr(n) == "startswith" and ast.unparse(n.args[0]) == "root", lambda n: parse_expr("(absolute_path + os.path.sep).lower().startswith(root.lower())"))), "C26.contained"),
     ("prefix test after stripping dots from the path", _in("validate_absolute_path", replace_expr(lambda n: isinstance(n, ast.Call) and q.call_attr(n) == "startswith" and ast.unparse(n.args[0]) == "root", lambda n: parse_expr("(absolute_path + os.path.sep).replace('..', '').startswith(root)"))), "C26.contained"),
+    ("seeded C26-adv4: dirname(path) tested against the root without its separator", _in("validate_absolute_path", lambda root: _seed_adv4(root)), ("C26.root-sep", "C26.contained")),
     ("404 for missing file turned into a different error", _in("validate_absolute_path", replace_expr(lambda n: isinstance(n, ast.Constant) and n.value == 404, lambda n: ast.Constant(value=500))), "C26.fail-status"),
 ]
 
@@ -896,4 +936,10 @@ def _join_after_isfile(root):
 def _commonprefix(root):
     a = remove_stmts(lambda st: isinstance(st, ast.If) and "endswith" in ast.unparse(st.test))(root)
     b = replace_expr(lambda n: isinstance(n, ast.Call) and q.call_attr(n) == "startswith" and ast.unparse(n.args[0]) == "root", lambda n: parse_expr("os.path.commonprefix([root, absolute_path]) == root"))(root)
+    return a and b
+
+
+def _seed_adv4(root):
+    a = remove_stmts(lambda st: isinstance(st, ast.If) and "endswith" in ast.unparse(st.test))(root)
+    b = replace_expr(lambda n: isinstance(n, ast.UnaryOp) and isinstance(n.op, ast.Not) and "startswith(root)" in ast.unparse(n), lambda n: parse_expr("absolute_path != root and not os.path.dirname(absolute_path).startswith(root)"))(root)
     return a and b
